@@ -352,4 +352,15 @@ pub fn run(seed: u64, n: usize, sink: &mut Sink) {
         emit_steps(&mut rr, &ctx, false, per_run, sink, &oracle_c03, &tags_c03);
         emit_run(&ctx, sink, "sl_hist");
     }
+    // directed: a heavy train on a sustained 3.5 % up-grade that its consist cannot hold.  It slows down and stalls; the
+    // run has to end with the explicit "not sufficient power to move" error BEFORE a step ends with a negative speed
+    // (/repo fix 4215761; a negative speed in any saved row is a violation)
+    for t in 0..2usize {
+        let mut rr = r.fork();
+        let mut o = sl_opts(&mut rr, 7 * t);
+        o.profile = 4; o.size = 2; o.default_consist = true; o.schedule = 0; o.dt = 1.0; o.ramp_up_time = None;
+        let ctx = sl_run(&mut rr, format!("stall{}", t), &o);
+        emit_steps(&mut rr, &ctx, false, 12, sink, &oracle_c03, &tags_c03);
+        emit_run(&ctx, sink, "sl_hist");
+    }
 }
